@@ -194,6 +194,12 @@ def run_history(ctx, numel, frame, ops, answer=None, rng=None):
         except (IndexError, ValueError) as e:
             states.append("E")
             ctx.count("err:" + type(e).__name__)
+            if op[0] in ("expand", "filt"):
+                ctx.violate(f"{op[0]} raised {type(e).__name__} on a valid frame", cj, {"kind": "raises", "op": op[0]})
+            break
+        except Exception as e:
+            states.append("E")
+            ctx.violate(f"{op[0]} raised {type(e).__name__}: {str(e)[:80]} on a valid frame", cj, {"kind": "raises", "op": op[0]})
             break
         s, ok = state_of(fr)
         states.append(s)
